@@ -2,6 +2,7 @@ package main
 
 import (
 	"fmt"
+	"os"
 	"strings"
 	"go/token"
 	"go/types"
@@ -367,6 +368,13 @@ func (fr *frame) execSlice(x *ssa.Slice, g *Term) *Term {
 
 func (fr *frame) binop(x *ssa.BinOp, g *Term) (Value, *Term) {
 	a, b := fr.get(x.X), fr.get(x.Y)
+	if os.Getenv("VERIF_DEBUG_BINOP") != "" {
+		if _, ok := a.(IfaceV); ok {
+			if _, ok2 := b.(IfaceV); !ok2 {
+				fmt.Fprintf(os.Stderr, "BINOP iface vs %T at %s in %s\n", b, fr.e.prog.Fset.Position(x.Pos()), x.Parent())
+			}
+		}
+	}
 	switch x.Op {
 	case token.EQL:
 		return eqVal(a, b), g
